@@ -100,3 +100,14 @@ pub use self::transform::Translation;
 
 /// Storage container for low level point data.
 pub type RawValues = Vec<RecordValue>;
+
+/// Verification hooks: re-exports of crate-private types so that an external
+/// harness can drive them directly. Only compiled with `--cfg e57_verif`.
+#[cfg(e57_verif)]
+#[doc(hidden)]
+pub mod verif {
+    pub use crate::bs_read::ByteStreamReadBuffer;
+    pub use crate::bs_write::ByteStreamWriteBuffer;
+    pub use crate::paged_reader::PagedReader;
+    pub use crate::paged_writer::PagedWriter;
+}
